@@ -739,7 +739,16 @@ func runExec(p *Program, ref Reference, cfg ExecCfg, stats *Stats) (*Violation, 
 						s.faulty = true
 					}
 				}()
-				_, err := protobuild.LintFile(ctx, s.ps, op.File, p.Files[op.File])
+				// what an editor sends: the stored content, or (every other time) an unsaved buffer with
+				// one more definition in it - linting a buffer must not change what the set compiles
+				buf := p.Files[op.File]
+				if (simrt.Derive(cfg.Seed, uint64(i), 0x11e7)&1) == 1 && strings.HasSuffix(op.File, ".j5s") {
+					buf += "\nobject ZzUnsavedEdit {\n  field note string\n}\n"
+					if stats != nil {
+						stats.Probes["lint_file_with_unsaved_buffer"]++
+					}
+				}
+				_, err := protobuild.LintFile(ctx, s.ps, op.File, buf)
 				if err != nil && s.src.faultSeen {
 					s.faulty = true
 				}
